@@ -145,9 +145,34 @@ def replay(rep):
                 return False
             return bool(P > 0 and np.all(np.abs(k) < 1))
         return not check_levinson_property(rr, order, r.get('tag', 'replay'))
+    if r.get('function') == 'scale_free':
+        return not check_scale_free(r['which'], vlib.unhexv(r['r']), vlib.unhexv(r['Z']), float.fromhex(r['scale']))
     if r.get('function') in ('HERMTOEP', 'TOEPLITZ', 'CHOLESKY'):
         return solver_residual_ok(r['function'], r)
     return True
+
+
+def check_scale_free(which, r, Z, sc):
+    from spectrum import LEVINSON
+    from spectrum.toeplitz import HERMTOEP, TOEPLITZ
+    try:
+        if which == 'HERMTOEP':
+            a = HERMTOEP(float(np.real(r[0])), r[1:], Z); b = HERMTOEP(float(np.real(r[0])) * sc, r[1:] * sc, Z * sc)
+            pairs = [(a, b)]
+        elif which == 'TOEPLITZ':
+            TR = np.conj(r[1:]) * 0.5
+            a = TOEPLITZ(complex(np.real(r[0]) * 2), r[1:], TR, Z); b = TOEPLITZ(complex(np.real(r[0]) * 2) * sc, r[1:] * sc, TR * sc, Z * sc)
+            pairs = [(a, b)]
+        else:
+            a1, P1, k1 = LEVINSON(r, len(r) - 1); a2, P2, k2 = LEVINSON(r * sc, len(r) - 1)
+            pairs = [(a1, a2), (k1, k2), (np.array([P1 * sc]), np.array([P2]))]
+    except Exception as e:
+        return [('scale_free/%s' % which, '%s raised %r on a well-conditioned system scaled by %g' % (which, e, sc))]
+    for u, v in pairs:
+        u = np.asarray(u); v = np.asarray(v)
+        if u.shape != v.shape or np.max(np.abs(u - v)) > 1e-7 * max(np.max(np.abs(u)), 1e-300):
+            return [('scale_free/%s' % which, '%s: the solution of the system scaled by %g differs from the solution of the original one' % (which, sc))]
+    return []
 
 
 def solver_residual_ok(fn, r):
@@ -401,3 +426,16 @@ def run(ctx):
                     ctx.violation('solves/CHOLESKY/' + method, 'A x != b for a Hermitian positive-definite system', rep)
             except Exception as e:
                 ctx.violation('solves/CHOLESKY/' + method, 'raised %r on an admissible system' % e, rep)
+
+    # ---------------- the solvers are scale free: tiny or huge systems (same condition number) are solved alike
+    for it in range(ctx.q(40, 400)):
+        p = int(rng.integers(1, 9)); N = p + int(rng.integers(4, 30))
+        x = rng.standard_normal(N) + 1j * rng.standard_normal(N)
+        r = np.array([np.sum(x[k:] * np.conj(x[:N - k])) / N for k in range(p + 1)]); r[0] = np.real(r[0]) * 1.05
+        Z = rng.standard_normal(p + 1) + 1j * rng.standard_normal(p + 1)
+        sc = 10.0 ** int(rng.integers(-18, 9))
+        which = ['HERMTOEP', 'TOEPLITZ', 'LEVINSON'][it % 3]
+        ctx.count('search/scale-free/%s' % which); ctx.case(('scale-free', which, r.tobytes(), Z.tobytes(), sc), nontrivial=(p >= 2))
+        rep = {'function': 'scale_free', 'which': which, 'r': vlib.hexv(r), 'Z': vlib.hexv(Z), 'scale': float(sc).hex()}
+        for key, what in check_scale_free(which, r, Z, sc):
+            ctx.violation(key, what, rep)
